@@ -55,6 +55,15 @@ def _amounts(thorough: bool):
     one(hours=2, minutes=-1, seconds=-1)
     one(hours=-3, seconds=3)
     one(minutes=-7, microseconds=7)
+    # amounts that are not ints but denote a whole number of microseconds exactly (dyadic floats, a bool)
+    one(hours=1.5)
+    one(hours=-0.5)
+    one(minutes=90.5)
+    one(seconds=0.25)
+    one(seconds=-1.5, microseconds=2.0)
+    one(hours=True)
+    one(minutes=0.5, seconds=-30, microseconds=1)
+    one(hours=25.0)
     if thorough:
         vals = {"hours": (0, 1, -1, 23, -25), "minutes": (0, 1, -1, 59, -61),
                 "seconds": (0, 1, -59, 60, -3601), "microseconds": (0, 1, -1, 999999, -1000001)}
@@ -70,8 +79,11 @@ def _amounts(thorough: bool):
 
 
 def _total_us(kw):
-    return ((kw.get("hours", 0) * 3600 + kw.get("minutes", 0) * 60 + kw.get("seconds", 0)) * US
-            + kw.get("microseconds", 0))
+    from fractions import Fraction as Fr
+    t = ((Fr(kw.get("hours", 0)) * 3600 + Fr(kw.get("minutes", 0)) * 60 + Fr(kw.get("seconds", 0))) * US
+         + Fr(kw.get("microseconds", 0)))
+    assert t.denominator == 1, kw
+    return int(t)
 
 
 _LO = tzref.MIN_T * US
@@ -211,6 +223,37 @@ def check_case(acc, pendulum, zname, inst, kw, variants=True, foreign=None):
                          {"fields": x_f, "offset": x_o})
 
 
+LONG_DELTAS = ((120000, 0, 1), (-120000, 0, -1), (200000, 5, 999999), (-150000, -7, -3), (104250, 86399, 999999), (3000000, 0, 1))
+
+
+def check_long_timedelta(acc, pendulum, z, inst, dsu):
+    """+ / - with a plain timedelta of several centuries that carries microseconds (beyond the float-exact range of seconds)."""
+    import datetime as dt_
+    td = dt_.timedelta(days=dsu[0], seconds=dsu[1], microseconds=dsu[2])
+    A = (dsu[0] * 86400 + dsu[1]) * US + dsu[2]
+    target = inst + A
+    if not (_LO < target < _HI):
+        acc.c["skipped_out_of_range"] += 1
+        return
+    if z is None:
+        x = pendulum.DateTime(*seeds.fields_of_wall(inst))
+        want = (seeds.fields_of_wall(target), None)
+    else:
+        x = obs.utc_dt(pendulum, inst).in_timezone(_tz(pendulum, z))
+        want = obs.expected_render(z, target)
+    case = {"kind": "ltd", "z": z, "inst": inst, "dsu": list(dsu)}
+    for name, fn in (("dt+timedelta", lambda: x + td), ("timedelta+dt", lambda: td + x), ("dt-(-timedelta)", lambda: x - (-td))):
+        acc.c["evaluations"] += 1
+        acc.c["transitions"] += 1
+        try:
+            r = fn()
+            got = (obs.fields(r), obs.offset_s(r) if r.tzinfo is not None else None)
+        except Exception as e:  # noqa: BLE001
+            got = f"raises {type(e).__name__}"
+        if got != want:
+            acc.mismatch("timedelta-operator", f"long/{name}", case, got, list(want))
+
+
 def run_shard(shard):
     import pendulum
     acc = core.Acc(ID)
@@ -242,6 +285,11 @@ def run_shard(shard):
                 insts += seeds.probe_instants(t, ob, oa, full=shard["thorough"])
             insts += seeds.grid_instants(370 if not shard["thorough"] else 37)
             crossing = True
+        if shard.get("edges"):
+            for inst in insts[::3]:
+                for dsu in LONG_DELTAS:
+                    with worker.guarded(acc, "add", {"kind": "ltd", "z": z, "inst": inst, "dsu": list(dsu)}):
+                        check_long_timedelta(acc, pendulum, z, inst, dsu)
         for inst in insts:
             seen_states.add((z, inst))
             if crossing:
@@ -261,6 +309,9 @@ def replay_case(case, acc):
     if case.get("kind") == "chain":
         from .. import chain
         chain.replay(acc, pendulum, case, {'fixed'})
+        return
+    if case.get("kind") == "ltd":
+        check_long_timedelta(acc, pendulum, case["z"], case["inst"], tuple(case["dsu"]))
         return
     with worker.guarded(acc, "add", case):
         check_case(acc, pendulum, case["z"], case["inst"], case["kw"], variants=True)
